@@ -1,6 +1,6 @@
 (* Proofs/Icmp6SpoofRA.v — the RA decoding model (Model/Icmp6SpoofRA.v) against the
    independent RFC 4861 decoder (Spec/RFC4861.v), for all byte strings. *)
-From PV Require Import Base.Prelude Model.Icmp6SpoofRA Spec.RFC4861.
+From PV Require Import Base.Prelude Model.Icmp6SpoofRA Spec.RFC4861 Model.Icmp6SpoofKnown.
 Open Scope N_scope.
 
 (* ---------------------------------------------------------------- *)
@@ -458,4 +458,223 @@ Proof.
     cbn [app List.length Nat.eqb]. unfold bind.
     unfold be32_at, at_. cbn [nth Nat.add]. rewrite be32_w32. reflexivity. }
   inversion Hd; subst. apply opt_step_other; assumption.
+Qed.
+
+(* ---------------------------------------------------------------- *)
+(* the whole option area: the model's result is the fold of the reference decoder's list *)
+
+Lemma steps_fold : forall tl ds o,
+  tlv_wf tl -> Forall (fun x => bytes_ok (obytes x)) tl -> decode_all tl = Some ds ->
+  steps o tl = Ok (fold_left apply1 ds o).
+Proof.
+  induction tl as [|[[t l] body] r IH]; intros ds o Hw Hok Hd.
+  - inversion Hd; subst. reflexivity.
+  - cbn [decode_all] in Hd. destruct (decode_opt t l body) as [d1|] eqn:E1; [|discriminate].
+    destruct (decode_all r) as [dr|] eqn:Er; [|discriminate]. inversion Hd; subst. clear Hd.
+    destruct Hw as [Hl [Hb Hw]]. inversion Hok as [|? ? Hx Hr]; subst.
+    cbn [obytes] in Hx. apply bytes_ok_cons' in Hx as [Ht Hx]. apply bytes_ok_cons' in Hx as [Hl2 Hx].
+    cbn [steps fst obytes]. rewrite (opt_step_char t l body d1 o Hl Hl2 Hb Hx E1).
+    cbn [fold_left]. apply IH; auto.
+Qed.
+
+Lemma concat_ok tl : bytes_ok (concat (map obytes tl)) -> Forall (fun x => bytes_ok (obytes x)) tl.
+Proof.
+  induction tl as [|x r IH]; intros H; [constructor|].
+  cbn [map concat] in H. apply bytes_ok_app in H as [H1 H2]. constructor; auto.
+Qed.
+
+Lemma tlv_count tl : (List.length tl <= List.length (concat (map obytes tl)))%nat.
+Proof.
+  induction tl as [|[[t l] body] r IH]; [simpl; lia|].
+  cbn [map concat obytes]. rewrite app_length. cbn [List.length]. lia.
+Qed.
+
+Theorem ra_options_exact p d : bytes_ok p -> ra_decode p = Some d ->
+  ra_options p = Ok (fold_left apply1 (ra_opts d) opts_zero).
+Proof.
+  intros Hok Hd. unfold ra_decode in Hd.
+  destruct p as [|a0 [|a1 [|a2 [|a3 [|a4 [|a5 [|a6 [|a7 [|a8 [|a9 [|a10 [|a11 [|a12 [|a13 [|a14 [|a15 optb]]]]]]]]]]]]]]]];
+    try discriminate.
+  destruct (split_tlv (List.length optb) optb) as [tl|] eqn:Es; [|discriminate].
+  destruct (decode_all tl) as [os|] eqn:Ea; [|discriminate]. inversion Hd; subst d. clear Hd. cbn [ra_opts].
+  apply split_tlv_wf in Es as [Hw Hc].
+  unfold ra_options.
+  destruct optb as [|b0 optb'].
+  - destruct tl as [|[[t l] body] r]; [|discriminate]. inversion Ea; subst. reflexivity.
+  - assert (Hb : (blen (a0 :: a1 :: a2 :: a3 :: a4 :: a5 :: a6 :: a7 :: a8 :: a9 :: a10 :: a11 :: a12 :: a13 :: a14 :: a15 :: b0 :: optb') <=? 16) = false).
+    { unfold blen. cbn [List.length]. lia. }
+    rewrite Hb. cbn [skipn]. rewrite Hc.
+    rewrite parse_opts_steps.
+    + apply steps_fold; auto. apply concat_ok. rewrite <- Hc.
+      do 16 (apply bytes_ok_cons' in Hok; destruct Hok as [_ Hok]). exact Hok.
+    + exact Hw.
+    + pose proof (tlv_count tl) as Hn. unfold opts_fuel. simpl List.length in *. clear - Hn. unfold bytes, byte in *. lia.
+Qed.
+
+(* ---------------------------------------------------------------- *)
+(* what the fold leaves in each field *)
+
+Lemma last_irrel {A} (l : list A) d d' : l <> [] -> last l d = last l d'.
+Proof.
+  induction l as [|a l IH]; intros H; [congruence|]. destruct l as [|b l]; [reflexivity|].
+  change (last (b :: l) d = last (b :: l) d'). apply IH. discriminate.
+Qed.
+Lemma last_cons {A} (a : A) l d : last (a :: l) d = last l a.
+Proof. destruct l as [|b l]; [reflexivity|]. change (last (b :: l) d = last (b :: l) a). apply last_irrel. discriminate. Qed.
+
+Lemma fold_slla : forall ds o, o_slla (fold_left apply1 ds o) = last (sllas ds) (o_slla o).
+Proof.
+  induction ds as [|d r IH]; intros o; [reflexivity|]. cbn [fold_left]. rewrite IH.
+  destruct d; cbn [sllas apply1]; try reflexivity. rewrite last_cons. reflexivity.
+Qed.
+Lemma fold_mtu : forall ds o, o_mtu (fold_left apply1 ds o) = last (mtus ds) (o_mtu o).
+Proof.
+  induction ds as [|d r IH]; intros o; [reflexivity|]. cbn [fold_left]. rewrite IH.
+  destruct d; cbn [mtus apply1]; try reflexivity. rewrite last_cons. reflexivity.
+Qed.
+Lemma fold_prefixes : forall ds o, o_prefixes (fold_left apply1 ds o) = o_prefixes o ++ map pi_of (prefixes ds).
+Proof.
+  induction ds as [|d r IH]; intros o; [cbn; rewrite app_nil_r; reflexivity|]. cbn [fold_left]. rewrite IH.
+  destruct d; cbn [prefixes apply1 map]; try reflexivity. cbn [add_prefix o_prefixes pi_of].
+  rewrite <- app_assoc. reflexivity.
+Qed.
+Lemma fold_ri : forall ds o, o_ri (fold_left apply1 ds o) = last (map ri_of (routes ds)) (o_ri o).
+Proof.
+  induction ds as [|d r IH]; intros o; [reflexivity|]. cbn [fold_left]. rewrite IH.
+  destruct d; cbn [routes apply1 map]; try reflexivity. rewrite last_cons. reflexivity.
+Qed.
+Lemma fold_dnssl : forall ds o, o_dnssl (fold_left apply1 ds o) = last (map ds_of (dnssls ds)) (o_dnssl o).
+Proof.
+  induction ds as [|d r IH]; intros o; [reflexivity|]. cbn [fold_left]. rewrite IH.
+  destruct d; cbn [dnssls apply1 map]; try reflexivity. rewrite last_cons. reflexivity.
+Qed.
+(* RDNSS: the lifetime of the last option over the servers of all of them *)
+Definition rd_life_of (o : ndopt) : N := match o with ORdnss l _ => l | _ => 0 end.
+Definition rd_srv_of (o : ndopt) : list bytes := match o with ORdnss _ s => s | _ => [] end.
+Lemma fold_rdnss : forall ds o, o_rdnss (fold_left apply1 ds o) =
+  mkRD (last (map rd_life_of (rdnsses ds)) (rd_life (o_rdnss o)))
+       (rd_servers (o_rdnss o) ++ concat (map rd_srv_of (rdnsses ds))).
+Proof.
+  induction ds as [|d r IH]; intros o.
+  - cbn. rewrite app_nil_r. destruct (o_rdnss o); reflexivity.
+  - cbn [fold_left]. rewrite IH.
+    destruct d; cbn [rdnsses apply1 map concat]; try reflexivity.
+    cbn [set_rdnss o_rdnss rd_life rd_servers rd_life_of rd_srv_of]. rewrite last_cons, <- app_assoc. reflexivity.
+Qed.
+
+(* ---------------------------------------------------------------- *)
+(* shape of what the reference decoder returns *)
+
+Ltac dec_inv H :=
+  unfold decode_opt in H;
+  repeat match type of H with
+  | (if ?c then _ else _) = _ => destruct c
+  | match ?x with _ => _ end = _ => destruct x
+  end; try discriminate H.
+
+Lemma decode_rdnss_nonempty t l body life srv : decode_opt t l body = Some (ORdnss life srv) -> srv <> [].
+Proof.
+  intros H. unfold decode_opt in H.
+  destruct (t =? 1); [destruct (l =? 1); discriminate|].
+  destruct (t =? 2); [destruct (l =? 1); discriminate|].
+  destruct (t =? 5); [destruct body as [|? [|? [|? [|? [|? [|? [|? ?]]]]]]]; discriminate|].
+  destruct (t =? 3).
+  { destruct body as [|? [|? [|? [|? [|? [|? [|? [|? [|? [|? [|? [|? [|? [|? ?]]]]]]]]]]]]]]; try discriminate.
+    destruct (_ && _); discriminate. }
+  destruct (t =? 24).
+  { destruct body as [|? [|? [|? [|? [|? [|? ?]]]]]]; try discriminate. destruct (_ && _); discriminate. }
+  destruct (t =? 25).
+  { destruct body as [|? [|? [|? [|? [|? [|? addrs]]]]]]; try discriminate.
+    destruct ((3 <=? l) && N.odd l) eqn:E; [|discriminate]. apply andb_true_iff in E as [E _].
+    inversion H; subst. destruct (N.to_nat ((l - 1) / 2)) eqn:En; [lia|]. cbn [chunks16]. discriminate. }
+  destruct (t =? 31).
+  { destruct body as [|? [|? [|? [|? [|? [|? names]]]]]]; try discriminate.
+    destruct (dn_names _ _) as [[|? ?]|]; discriminate. }
+  discriminate.
+Qed.
+
+Lemma decode_dnssl_nonempty t l body life names : decode_opt t l body = Some (ODnssl life names) -> names <> [].
+Proof.
+  intros H. unfold decode_opt in H.
+  destruct (t =? 1); [destruct (l =? 1); discriminate|].
+  destruct (t =? 2); [destruct (l =? 1); discriminate|].
+  destruct (t =? 5); [destruct body as [|? [|? [|? [|? [|? [|? [|? ?]]]]]]]; discriminate|].
+  destruct (t =? 3).
+  { destruct body as [|? [|? [|? [|? [|? [|? [|? [|? [|? [|? [|? [|? [|? [|? ?]]]]]]]]]]]]]]; try discriminate.
+    destruct (_ && _); discriminate. }
+  destruct (t =? 24).
+  { destruct body as [|? [|? [|? [|? [|? [|? ?]]]]]]; try discriminate. destruct (_ && _); discriminate. }
+  destruct (t =? 25).
+  { destruct body as [|? [|? [|? [|? [|? [|? addrs]]]]]]; try discriminate. destruct (_ && _); discriminate. }
+  destruct (t =? 31).
+  { destruct body as [|? [|? [|? [|? [|? [|? nm]]]]]]; try discriminate.
+    destruct (dn_names _ _) as [[|? ?]|]; try discriminate. inversion H; subst. discriminate. }
+  discriminate.
+Qed.
+
+Definition opt_shape (o : ndopt) : Prop :=
+  match o with
+  | ORdnss _ srv => srv <> []
+  | ODnssl _ names => names <> []
+  | _ => True
+  end.
+
+Lemma decode_all_shape : forall tl ds, decode_all tl = Some ds -> Forall opt_shape ds.
+Proof.
+  induction tl as [|[[t l] body] r IH]; intros ds H; cbn [decode_all] in H.
+  - inversion H; constructor.
+  - destruct (decode_opt t l body) as [d1|] eqn:E1; [|discriminate].
+    destruct (decode_all r) as [dr|]; [|discriminate]. inversion H; subst. constructor; [|apply IH; reflexivity].
+    destruct d1; cbn [opt_shape]; auto.
+    + eapply decode_rdnss_nonempty; eauto.
+    + eapply decode_dnssl_nonempty; eauto.
+Qed.
+
+Lemma ra_decode_shape p d : ra_decode p = Some d -> Forall opt_shape (ra_opts d).
+Proof.
+  unfold ra_decode. intros H.
+  destruct p as [|a0 [|a1 [|a2 [|a3 [|a4 [|a5 [|a6 [|a7 [|a8 [|a9 [|a10 [|a11 [|a12 [|a13 [|a14 [|a15 optb]]]]]]]]]]]]]]]];
+    try discriminate.
+  destruct (split_tlv _ _) as [tl|]; [|discriminate].
+  destruct (decode_all tl) as [os|] eqn:E; [|discriminate]. inversion H; subst. cbn [ra_opts].
+  eapply decode_all_shape; eauto.
+Qed.
+
+(* ---------------------------------------------------------------- *)
+(* the list-valued options: exact when at most one option of the kind is present *)
+
+Lemma routes_only ds : Forall (fun o => match o with ORoute _ _ _ _ => True | _ => False end) (routes ds).
+Proof. induction ds as [|d r IH]; [constructor|]. destruct d; cbn [routes]; auto. Qed.
+Lemma rdnsses_only ds : Forall opt_shape ds ->
+  Forall (fun o => match o with ORdnss _ srv => srv <> [] | _ => False end) (rdnsses ds).
+Proof. induction ds as [|d r IH]; intros H; [constructor|]. inversion H; subst. destruct d; cbn [rdnsses]; auto. Qed.
+Lemma dnssls_only ds : Forall opt_shape ds ->
+  Forall (fun o => match o with ODnssl _ nm => nm <> [] | _ => False end) (dnssls ds).
+Proof. induction ds as [|d r IH]; intros H; [constructor|]. inversion H; subst. destruct d; cbn [dnssls]; auto. Qed.
+
+Lemma fold_routes_exact ds : (List.length (routes ds) < 2)%nat ->
+  model_routes (fold_left apply1 ds opts_zero) = map ri_of (routes ds).
+Proof.
+  intros H. unfold model_routes. rewrite fold_ri. pose proof (routes_only ds) as Ho.
+  destruct (routes ds) as [|x [|y r]]; [reflexivity| |cbn [List.length] in H; lia].
+  inversion Ho; subst. destruct x; try contradiction. reflexivity.
+Qed.
+
+Lemma fold_rdnss_exact ds : Forall opt_shape ds -> (List.length (rdnsses ds) < 2)%nat ->
+  model_rdnss (fold_left apply1 ds opts_zero) = map rd_of (rdnsses ds).
+Proof.
+  intros Hs H. unfold model_rdnss. rewrite fold_rdnss. pose proof (rdnsses_only ds Hs) as Ho.
+  destruct (rdnsses ds) as [|x [|y r]]; [reflexivity| |cbn [List.length] in H; lia].
+  inversion Ho; subst. destruct x; try contradiction.
+  cbn [map concat rd_srv_of rd_life_of last rd_servers o_rdnss opts_zero app]. rewrite app_nil_r.
+  destruct servers; [congruence|reflexivity].
+Qed.
+
+Lemma fold_dnssl_exact ds : Forall opt_shape ds -> (List.length (dnssls ds) < 2)%nat ->
+  model_dnssl (fold_left apply1 ds opts_zero) = map ds_of (dnssls ds).
+Proof.
+  intros Hs H. unfold model_dnssl. rewrite fold_dnssl. pose proof (dnssls_only ds Hs) as Ho.
+  destruct (dnssls ds) as [|x [|y r]]; [reflexivity| |cbn [List.length] in H; lia].
+  inversion Ho; subst. destruct x; try contradiction.
+  cbn [map last ds_of ds_names]. destruct names; [congruence|reflexivity].
 Qed.
